@@ -65,6 +65,12 @@ THEOREMS = [
     "OllamaVerif.Tie.C17.client_limit_documented",
     "OllamaVerif.Tie.C17.reason_table_complete",
     "OllamaVerif.Tie.C17.reason_table_matches",
+    "OllamaVerif.Tie.C17.error_texts_match",
+    "OllamaVerif.C17.chatCallback_calls_exact",
+    "OllamaVerif.C17.tools_index_all",
+    "OllamaVerif.C17.tools_equiv_iff",
+    "OllamaVerif.C17.openai_chat_stream_finish_usage",
+    "OllamaVerif.C17.openai_cmpl_stream_finish_usage",
     "OllamaVerif.C17.F17a_split_loses_call",
     "OllamaVerif.C17.F17b_index_mismatch",
     "OllamaVerif.C17.F17c_openai_stream_error_swallowed",
@@ -79,6 +85,42 @@ VARIANT = 30  # fixed in /repo: F17c (499276761, bit 2), F17b (bit 4), F17d (bit
 OVERLAY = {"server/zz_verif_c17_test.go": "server/zz_verif_c17_test.go"}
 
 
+# Branches of the model (= of the handlers / writers / client, L1 being exact) that the theorems talk about; the
+# driver reads them off the real replies (`br_*` in stats.txt).  A run in which one of them was never exercised
+# says nothing about it: fail closed.
+REQUIRED_COUNTERS = [
+    # where the runner can fail (one_final_*_faults, *_outcome_equiv, *_fixedD)
+    "br_native_stream_prefail_load", "br_native_stream_prefail_detok", "br_native_stream_prefail_tok",
+    "br_native_stream_completion_error", "br_native_stream_incomplete_error", "br_gen_stream_context_tokenize_error",
+    "br_native_once_fault_load", "br_native_once_fault_detok", "br_native_once_fault_tok", "br_native_once_completion_error",
+    "br_native_once_incomplete_error", "br_gen_stream_final_with_context", "br_gen_stream_final_raw",
+    # the streaming tool path (chatCallback: every branch) and the non-stream tools step
+    "br_tools_stream_calls_then_reset", "br_tools_stream_calls_in_final_message", "br_tools_stream_final_after_calls",
+    "br_tools_stream_final_flushes_buffer", "br_tools_stream_final_plain", "br_tools_stream_several_call_messages",
+    "br_tools_stream_index_above_0", "br_tools_once_several_calls", "br_tools_once_one_call", "br_tools_once_no_call",
+    # OpenAI writers
+    "br_openai_stream_error_event", "br_openai_error_body", "br_openai_stream_usage_chunk", "br_openai_stream_finish_tool_calls",
+    "br_openai_stream_finish_native", "br_openai_stream_delta_with_calls", "br_openai_cmpl_stream_finish_native",
+    "br_openai_cmpl_chunk_zero_usage", "br_openai_once_finish_tool_calls",
+    # api.Client
+    "br_client_line_at_or_above_limit", "br_client_returns_error_line", "br_client_delivers_all",
+    # generator classes
+    "end_ok", "end_err", "end_silent", "done_chunk_has_content", "tools_early_parse", "tools_whole_parses", "long_groups",
+    "conv_last_t", "conv_last_A", "conv_last_a", "conv_last_s", "conv_last_u", "texts_all_splits", "corpus_groups",
+]
+# not required: br_native_stream_empty / br_openai_once_zero_value_reply (a run that delivers nothing and ends
+# silently: only reachable without the F17d repair, i.e. VARIANT bit 8 clear)
+
+
+def coverage_required(ctx):
+    missing = [c for c in REQUIRED_COUNTERS if not ctx.stats.get(c)]
+    ctx.coverage["model_branches_required"] = len(REQUIRED_COUNTERS)
+    ctx.coverage["model_branches_missing"] = missing
+    if missing and not ctx.replay:
+        ctx.violation("correspondence-coverage", "", "branches of the model never exercised on the real code in this run: "
+                      + ", ".join(missing), no_input=True)
+
+
 def regenerate(ctx):
     """Tie 1: execute the real llm.DoneReason(i).String() for i = 0..7 and emit the table."""
     rc, out, outdir = ctx.go_test("./server/", OVERLAY, "^TestVerifC17Table$")
@@ -88,11 +130,20 @@ def regenerate(ctx):
             i, h = line.split()
             bs = [] if h == "-" else list(bytes.fromhex(h))
             rows.append(f"({i}, [{', '.join(map(str, bs))}])")
+    consts = {"incomplete": "[]", "toolong": "[]"}
+    if rc == 0 and os.path.exists(outdir + "/consts.txt"):
+        for line in open(outdir + "/consts.txt"):
+            k, h = line.split()
+            consts[k] = "[" + ", ".join(map(str, [] if h == "-" else list(bytes.fromhex(h)))) + "]"
     body = ("-- REGENERATED on every run by vlib/checks/c17.py from /repo's working tree. Do not edit.\n"
             "import OllamaVerif.Model.Bytes\n"
             "namespace OllamaVerif.Generated.C17\n"
             "/-- (i, bytes of llm.DoneReason(i).String()) as returned by the real method -/\n"
             "def reasonTable : List (Nat × OllamaVerif.Bytes) := [" + ", ".join(rows) + "]\n"
+            "/-- server.errIncompleteResponse.Error() as evaluated in the tree under test -/\n"
+            "def incompleteMsg : OllamaVerif.Bytes := " + consts["incomplete"] + "\n"
+            "/-- bufio.ErrTooLong.Error() of the toolchain the tree is built with -/\n"
+            "def tooLongMsg : OllamaVerif.Bytes := " + consts["toolong"] + "\n"
             "end OllamaVerif.Generated.C17\n")
     core.write_generated("OllamaVerif/Generated/C17_Reasons.lean", body)
 
@@ -135,6 +186,7 @@ def run(ctx):
     if rc != 0:
         ctx.violation("driver-failed", "", out[-1500:], no_input=True)
     ctx.read_stats(outdir)
+    coverage_required(ctx)
     ctx.l1(outdir)
     ctx.classify(ctx.l2(outdir))
     if ctx.thorough:
